@@ -744,7 +744,19 @@ func c01AccessorContracts(r *Run, ppkg *packages.Package, acc *eofAccessors, ev 
 		})
 		return found
 	}
-	beyond := func(e ast.Expr) tri {
+	var beyond func(e ast.Expr) tri
+	beyond = func(e ast.Expr) tri {
+		switch x := ast.Unparen(e).(type) {
+		case *ast.CallExpr:
+			// the end-of-input accessor itself (its own contract is judged below)
+			if cal, _ := calleeOf(info, x).(*types.Func); cal != nil && acc.isEOF[cal] {
+				return triT
+			}
+		case *ast.UnaryExpr:
+			if x.Op == token.NOT {
+				return beyond(x.X).not()
+			}
+		}
 		be, ok := ast.Unparen(e).(*ast.BinaryExpr)
 		if !ok {
 			return triU
@@ -828,24 +840,116 @@ func c01AccessorContracts(r *Run, ppkg *packages.Package, acc *eofAccessors, ev 
 		h.Return = func(rs *ast.ReturnStmt, s State) { onReturn(rs, s.(*st).eofArg) }
 		WalkFunc(h, fd.Body, &st{})
 	}
+	// eofToken: the expression is an EOF token — it names token.EOF, delegates to a token accessor of
+	// the cursor (whose own contract is judged here too), or calls a parameterless function of the
+	// package every return of which is an EOF token
+	var eofToken func(e ast.Node, depth int) bool
+	eofToken = func(e ast.Node, depth int) bool {
+		found := false
+		ast.Inspect(e, func(m ast.Node) bool {
+			x, ok := m.(ast.Expr)
+			if !ok || found {
+				return !found
+			}
+			if isTok, isEOF := ev.isEOFConst(x); isTok && isEOF {
+				found = true
+			}
+			return true
+		})
+		if found {
+			return true
+		}
+		var res ast.Expr
+		switch x := e.(type) {
+		case *ast.ReturnStmt:
+			if len(x.Results) == 1 {
+				res = x.Results[0]
+			}
+		case ast.Expr:
+			res = x
+		}
+		c, ok := ast.Unparen(res).(*ast.CallExpr)
+		if res == nil || !ok {
+			return false
+		}
+		if ev.isCurrentCall(c) {
+			return true
+		}
+		cal, _ := calleeOf(info, c).(*types.Func)
+		if cal == nil || len(c.Args) != 0 || depth >= 2 {
+			return false
+		}
+		hd := declOf[cal]
+		if hd == nil || hd.Body == nil || hd.Recv != nil {
+			return false
+		}
+		all, n := true, 0
+		ast.Inspect(hd.Body, func(m ast.Node) bool {
+			if _, isLit := m.(*ast.FuncLit); isLit {
+				return false
+			}
+			if rs, ok := m.(*ast.ReturnStmt); ok {
+				n++
+				if !eofToken(rs, depth+1) {
+					all = false
+				}
+			}
+			return true
+		})
+		return all && n > 0
+	}
+	// boolBeyond evaluates a returned boolean with the cursor beyond the end; onEOF says the value can
+	// only be true when the asked-for type is the EOF constant (a conjunct x == token.EOF)
+	var boolBeyond func(e ast.Expr) (v tri, onEOF bool)
+	boolBeyond = func(e ast.Expr) (tri, bool) {
+		e = ast.Unparen(e)
+		switch exprStr(e) {
+		case "true":
+			return triT, false
+		case "false":
+			return triF, false
+		}
+		if v := beyond(e); v != triU {
+			return v, false
+		}
+		if be, ok := e.(*ast.BinaryExpr); ok {
+			switch be.Op {
+			case token.LOR:
+				a, _ := boolBeyond(be.X)
+				b, _ := boolBeyond(be.Y)
+				if a == triT || b == triT {
+					return triT, false
+				}
+				if a == triF && b == triF {
+					return triF, false
+				}
+			case token.LAND:
+				a, ae := boolBeyond(be.X)
+				b, bee := boolBeyond(be.Y)
+				if a == triF || b == triF {
+					return triF, false
+				}
+				if a == triT && b == triT {
+					return triT, false
+				}
+				return triU, ae || bee
+			case token.EQL:
+				if isTok, isEOF := ev.isEOFConst(be.Y); isTok && isEOF {
+					return triU, true
+				}
+				if isTok, isEOF := ev.isEOFConst(be.X); isTok && isEOF {
+					return triU, true
+				}
+			}
+		}
+		return triU, false
+	}
 	for fn := range acc.current {
 		check(fn, "returns an EOF token when the cursor is beyond the end", func(fd *ast.FuncDecl) (bool, string) {
 			okAll, n := true, 0
 			walkReturns(fd, func(rs *ast.ReturnStmt, _ bool) {
 				n++
-				found := false
-				ast.Inspect(rs, func(m ast.Node) bool {
-					if isTok, isEOF := func() (bool, bool) {
-						if e, ok := m.(ast.Expr); ok {
-							return ev.isEOFConst(e)
-						}
-						return false, false
-					}(); isTok && isEOF {
-						found = true
-					}
-					return true
-				})
-				if !found {
+				if !eofToken(rs, 0) {
 					okAll = false
 				}
 			})
@@ -857,16 +961,7 @@ func c01AccessorContracts(r *Run, ppkg *packages.Package, acc *eofAccessors, ev 
 			okAll, n := true, 0
 			walkReturns(fd, func(rs *ast.ReturnStmt, _ bool) {
 				n++
-				found := false
-				ast.Inspect(rs, func(m ast.Node) bool {
-					if e, ok := m.(ast.Expr); ok {
-						if isTok, isEOF := ev.isEOFConst(e); isTok && isEOF {
-							found = true
-						}
-					}
-					return true
-				})
-				if !found {
+				if !eofToken(rs, 0) {
 					okAll = false
 				}
 			})
@@ -876,8 +971,10 @@ func c01AccessorContracts(r *Run, ppkg *packages.Package, acc *eofAccessors, ev 
 	for fn := range acc.isEOF {
 		check(fn, "is true exactly when the cursor is beyond the end", func(fd *ast.FuncDecl) (bool, string) {
 			if len(fd.Body.List) == 1 {
-				if rs, ok := fd.Body.List[0].(*ast.ReturnStmt); ok && len(rs.Results) == 1 && beyond(rs.Results[0]) == triT {
-					return true, ""
+				if rs, ok := fd.Body.List[0].(*ast.ReturnStmt); ok && len(rs.Results) == 1 {
+					if _, isCall := ast.Unparen(rs.Results[0]).(*ast.CallExpr); !isCall && beyond(rs.Results[0]) == triT {
+						return true, ""
+					}
 				}
 			}
 			return false, "it is not `position >= len(tokens)`"
@@ -888,7 +985,9 @@ func c01AccessorContracts(r *Run, ppkg *packages.Package, acc *eofAccessors, ev 
 			okAll, n := true, 0
 			walkReturns(fd, func(rs *ast.ReturnStmt, _ bool) {
 				n++
-				if len(rs.Results) != 1 || exprStr(rs.Results[0]) != "true" {
+				if len(rs.Results) != 1 {
+					okAll = false
+				} else if v, _ := boolBeyond(rs.Results[0]); v != triT {
 					okAll = false
 				}
 			})
@@ -904,12 +1003,14 @@ func c01AccessorContracts(r *Run, ppkg *packages.Package, acc *eofAccessors, ev 
 					okAll = false
 					return
 				}
-				switch exprStr(rs.Results[0]) {
-				case "false":
-				case "true":
+				switch v, onEOF := boolBeyond(rs.Results[0]); {
+				case v == triF:
+				case v == triT:
 					if !eofArg {
 						okAll = false
 					}
+				case onEOF:
+					// len(checks) == 1 && checks[0] == token.EOF
 				default:
 					okAll = false
 				}
